@@ -188,6 +188,7 @@ class Program:
         self.impls = j["impls"]
         self.consts = {c["path"]: c for c in j["consts"]}
         self._cg = None
+        self.const_ranges = None   # def path -> (min, max) of literal tables; filled by sa/oblrules.py
 
     def body(self, path):
         r = self.by_path.get(path, [])
